@@ -263,27 +263,31 @@ Record client := mkClient {
   c_in : inp;
   c_ptr : ptrst;
   c_sw : Z; c_sh : Z;        (* cl->scaledScreen width/height *)
-  c_clip : clipst
+  c_clip : clipst;
+  c_rev : bool               (* cl->reverseConnection (rfbReverseConnection): no sharing test, no authentication *)
 }.
 
 Definition set_state (c : client) (v : cstate) : client :=
-  mkClient (c_id c) v (c_closed c) (c_minor c) (c_viewonly c) (c_authres c) (c_in c) (c_ptr c) (c_sw c) (c_sh c) (c_clip c).
+  mkClient (c_id c) v (c_closed c) (c_minor c) (c_viewonly c) (c_authres c) (c_in c) (c_ptr c) (c_sw c) (c_sh c) (c_clip c) (c_rev c).
 Definition set_closed (c : client) (v : bool) : client :=
-  mkClient (c_id c) (c_state c) v (c_minor c) (c_viewonly c) (c_authres c) (c_in c) (c_ptr c) (c_sw c) (c_sh c) (c_clip c).
+  mkClient (c_id c) (c_state c) v (c_minor c) (c_viewonly c) (c_authres c) (c_in c) (c_ptr c) (c_sw c) (c_sh c) (c_clip c) (c_rev c).
 Definition set_minor (c : client) (v : Z) : client :=
-  mkClient (c_id c) (c_state c) (c_closed c) v (c_viewonly c) (c_authres c) (c_in c) (c_ptr c) (c_sw c) (c_sh c) (c_clip c).
+  mkClient (c_id c) (c_state c) (c_closed c) v (c_viewonly c) (c_authres c) (c_in c) (c_ptr c) (c_sw c) (c_sh c) (c_clip c) (c_rev c).
 Definition set_viewonly (c : client) (v : bool) : client :=
-  mkClient (c_id c) (c_state c) (c_closed c) (c_minor c) v (c_authres c) (c_in c) (c_ptr c) (c_sw c) (c_sh c) (c_clip c).
+  mkClient (c_id c) (c_state c) (c_closed c) (c_minor c) v (c_authres c) (c_in c) (c_ptr c) (c_sw c) (c_sh c) (c_clip c) (c_rev c).
 Definition set_authres (c : client) (v : option Z) : client :=
-  mkClient (c_id c) (c_state c) (c_closed c) (c_minor c) (c_viewonly c) v (c_in c) (c_ptr c) (c_sw c) (c_sh c) (c_clip c).
+  mkClient (c_id c) (c_state c) (c_closed c) (c_minor c) (c_viewonly c) v (c_in c) (c_ptr c) (c_sw c) (c_sh c) (c_clip c) (c_rev c).
 Definition set_in (c : client) (v : inp) : client :=
-  mkClient (c_id c) (c_state c) (c_closed c) (c_minor c) (c_viewonly c) (c_authres c) v (c_ptr c) (c_sw c) (c_sh c) (c_clip c).
+  mkClient (c_id c) (c_state c) (c_closed c) (c_minor c) (c_viewonly c) (c_authres c) v (c_ptr c) (c_sw c) (c_sh c) (c_clip c) (c_rev c).
 Definition set_ptr (c : client) (v : ptrst) : client :=
-  mkClient (c_id c) (c_state c) (c_closed c) (c_minor c) (c_viewonly c) (c_authres c) (c_in c) v (c_sw c) (c_sh c) (c_clip c).
+  mkClient (c_id c) (c_state c) (c_closed c) (c_minor c) (c_viewonly c) (c_authres c) (c_in c) v (c_sw c) (c_sh c) (c_clip c) (c_rev c).
 Definition set_scaled (c : client) (w h : Z) : client :=
-  mkClient (c_id c) (c_state c) (c_closed c) (c_minor c) (c_viewonly c) (c_authres c) (c_in c) (c_ptr c) w h (c_clip c).
+  mkClient (c_id c) (c_state c) (c_closed c) (c_minor c) (c_viewonly c) (c_authres c) (c_in c) (c_ptr c) w h (c_clip c) (c_rev c).
 Definition set_clip (c : client) (v : clipst) : client :=
-  mkClient (c_id c) (c_state c) (c_closed c) (c_minor c) (c_viewonly c) (c_authres c) (c_in c) (c_ptr c) (c_sw c) (c_sh c) v.
+  mkClient (c_id c) (c_state c) (c_closed c) (c_minor c) (c_viewonly c) (c_authres c) (c_in c) (c_ptr c) (c_sw c) (c_sh c) v (c_rev c).
+
+Definition set_rev (c : client) (v : bool) : client :=
+  mkClient (c_id c) (c_state c) (c_closed c) (c_minor c) (c_viewonly c) (c_authres c) (c_in c) (c_ptr c) (c_sw c) (c_sh c) (c_clip c) v.
 
 Record config := mkCfg {
   g_w : Z; g_h : Z;              (* screen->width/height *)
@@ -338,7 +342,7 @@ Definition ev_of_utf8 (c : Z) (u : utf8cb) : event :=
   match u with U8 v j => EvCutUTF8 c v j | U8Undef => EvUndef c end.
 
 Definition new_client (cfg : config) (id : Z) (vo : bool) : client :=
-  mkClient id SVersion false 0 vo None inp_empty ptr0 (g_w cfg) (g_h cfg) clip0.
+  mkClient id SVersion false 0 vo None inp_empty ptr0 (g_w cfg) (g_h cfg) clip0 false.
 
 (* ------------------------------------------------------------------------------------ *)
 (* handlers *)
@@ -365,8 +369,10 @@ Definition parse_version (b : list Z) : option (Z * Z) :=
   | _ => None
   end.
 
-Definition primary_sec (cfg : config) : Z :=
-  if g_haspw cfg then c06_rfbSecTypeVncAuth else c06_rfbSecTypeNone.
+(* rfbClientPrimarySecurityType (auth.c): a reverse connection is never asked for the password *)
+Definition needs_auth (cfg : config) (c : client) : bool := g_haspw cfg && negb (c_rev c).
+Definition primary_sec (cfg : config) (c : client) : Z :=
+  if needs_auth cfg c then c06_rfbSecTypeVncAuth else c06_rfbSecTypeNone.
 
 (* ScaleX/ScaleY as they are, or with the repair (x*to)/from: exact for 16-bit operands *)
 Definition scale_v (cfg : config) (x fw tw : Z) : option Z :=
@@ -400,7 +406,8 @@ Definition applied_close (c : client) (o : option Z) : applied := mkApplied (set
    in RFB_NORMAL exists *)
 Definition apply_init (cfg : config) (o : option Z) (c : client) (shared : Z) (others_normal : bool) : applied :=
   let c1 := set_state c SNormal in
-  if g_never cfg || (negb (g_always cfg) && (shared =? 0)) then
+  (* rfbserver.c:889: the sharing test does not apply to a reverse connection *)
+  if negb (c_rev c) && (g_never cfg || (negb (g_always cfg) && (shared =? 0))) then
     if g_dontdisc cfg then
       (if others_normal then applied_close c1 o else applied_same c1 o)
     else mkApplied c1 o [] true
@@ -415,13 +422,13 @@ Definition apply_handshake (cfg : config) (o : option Z) (c : client) (m : msg) 
           if negb (major =? c06_rfbProtocolMajorVersion) then applied_close c o else
           let c1 := set_minor c minor in
           if minor <? 7 then
-            (if g_haspw cfg then applied_same (set_state c1 SAuth) o
+            (if needs_auth cfg c then applied_same (set_state c1 SAuth) o
              else applied_same (set_state c1 SInit) o)
           else applied_same (set_state c1 SSecType) o
       end
   | HSecType t =>
-      if negb (t =? primary_sec cfg) then applied_close c o
-      else if g_haspw cfg then applied_same (set_state c SAuth) o
+      if negb (t =? primary_sec cfg c) then applied_close c o
+      else if needs_auth cfg c then applied_same (set_state c SAuth) o
       else if c_minor c =? 889 then apply_init cfg o c 1 others_normal   (* RFB_INITIALISATION_SHARED *)
       else applied_same (set_state c SInit) o
   | HAuthResp _ =>
